@@ -36,7 +36,7 @@ ASSUMPTIONS = [
     'invalid stays refused" are',
 ]
 SHARDS = {'quick': 8, 'thorough': 16}
-TIMEOUT = {'quick': 300, 'thorough': 1800}
+TIMEOUT = {'quick': 900, 'thorough': 3600}
 ANCHORS = [
     ('pjrpc/common/v20.py', 'Request.from_json'),
     ('pjrpc/common/v20.py', 'Response.from_json'),
